@@ -229,3 +229,481 @@ pub mod comment {
             .collect()
     }
 }
+
+/// Use trees, the comparators behind reordering and the grouping of reorderable items.
+///
+/// Textual forms (shared by the checks of import reordering and import merging):
+/// strings are lower-case hex of UTF-8, `-` for the empty string; an alias is `~` for `None`;
+/// a segment is `(i:<name>:<alias>)`, `(s:<alias>)` self, `(u:<alias>)` super, `(c:<alias>)`
+/// crate, `(g)` glob, `(l<tree>…)` nested list; a tree is `[<segment>…]` (`UseTree.path`);
+/// an item is `m:<name>` (`mod name;`) or `e:<name>:<alias>` (`extern crate name [as alias];`).
+pub mod imports {
+    use std::cmp::Ordering;
+    use std::panic::{AssertUnwindSafe, catch_unwind};
+
+    use rustc_ast::ast;
+
+    use crate::config::{Config, Edition, StyleEdition, Verbosity};
+    use crate::imports::{UseSegment, UseSegmentKind, UseTree};
+    use crate::parse::parser::Parser;
+    use crate::parse::session::ParseSess;
+    use crate::source_map::LineRangeUtils;
+    use crate::spanned::Spanned;
+    use crate::visitor::{FmtVisitor, SnippetProvider};
+    use crate::{FormatReport, Input};
+
+    // ---- encodings
+
+    pub fn hex(s: &str) -> String {
+        if s.is_empty() {
+            return "-".to_owned();
+        }
+        s.bytes().map(|b| format!("{b:02x}")).collect()
+    }
+
+    pub fn unhex(s: &str) -> Option<String> {
+        if s == "-" {
+            return Some(String::new());
+        }
+        if s.is_empty() || s.len() % 2 != 0 || !s.is_ascii() {
+            return None;
+        }
+        let bytes: Option<Vec<u8>> = (0..s.len() / 2)
+            .map(|i| u8::from_str_radix(&s[2 * i..2 * i + 2], 16).ok())
+            .collect();
+        String::from_utf8(bytes?).ok()
+    }
+
+    fn enc_alias(a: &Option<String>) -> String {
+        match a {
+            None => "~".to_owned(),
+            Some(s) => hex(s),
+        }
+    }
+
+    fn dec_alias(s: &str) -> Option<Option<String>> {
+        if s == "~" {
+            Some(None)
+        } else {
+            unhex(s).map(Some)
+        }
+    }
+
+    pub(crate) fn encode_segment(seg: &UseSegment) -> String {
+        match seg.kind {
+            UseSegmentKind::Ident(ref n, ref a) => format!("(i:{}:{})", hex(n), enc_alias(a)),
+            UseSegmentKind::Slf(ref a) => format!("(s:{})", enc_alias(a)),
+            UseSegmentKind::Super(ref a) => format!("(u:{})", enc_alias(a)),
+            UseSegmentKind::Crate(ref a) => format!("(c:{})", enc_alias(a)),
+            UseSegmentKind::Glob => "(g)".to_owned(),
+            UseSegmentKind::List(ref l) => {
+                format!("(l{})", l.iter().map(encode_tree).collect::<String>())
+            }
+        }
+    }
+
+    /// The structure of a `UseTree` that `Ord`, `Eq` and `Hash` read: its path, aliases included.
+    pub(crate) fn encode_tree(tree: &UseTree) -> String {
+        format!(
+            "[{}]",
+            tree.path.iter().map(encode_segment).collect::<String>()
+        )
+    }
+
+    pub(crate) fn encode_trees(trees: &[UseTree]) -> String {
+        if trees.is_empty() {
+            "_".to_owned()
+        } else {
+            trees.iter().map(encode_tree).collect()
+        }
+    }
+
+    struct Dec<'a> {
+        s: &'a [u8],
+        pos: usize,
+        style_edition: StyleEdition,
+    }
+
+    impl<'a> Dec<'a> {
+        fn eat(&mut self, lit: &str) -> bool {
+            if self.s[self.pos..].starts_with(lit.as_bytes()) {
+                self.pos += lit.len();
+                true
+            } else {
+                false
+            }
+        }
+        fn tok(&mut self) -> &'a str {
+            let start = self.pos;
+            while self.pos < self.s.len()
+                && matches!(self.s[self.pos], b'0'..=b'9' | b'a'..=b'f' | b'-' | b'~')
+            {
+                self.pos += 1;
+            }
+            std::str::from_utf8(&self.s[start..self.pos]).unwrap_or("")
+        }
+        fn seg(&mut self) -> Option<UseSegment> {
+            let kind = if self.eat("(g)") {
+                UseSegmentKind::Glob
+            } else if self.eat("(i:") {
+                let n = unhex(self.tok())?;
+                if !self.eat(":") {
+                    return None;
+                }
+                let a = dec_alias(self.tok())?;
+                if !self.eat(")") {
+                    return None;
+                }
+                UseSegmentKind::Ident(n, a)
+            } else if self.eat("(l") {
+                let mut list = vec![];
+                while self.s.get(self.pos) == Some(&b'[') {
+                    list.push(self.tree()?);
+                }
+                if !self.eat(")") {
+                    return None;
+                }
+                UseSegmentKind::List(list)
+            } else {
+                let k = if self.eat("(s:") {
+                    0
+                } else if self.eat("(u:") {
+                    1
+                } else if self.eat("(c:") {
+                    2
+                } else {
+                    return None;
+                };
+                let a = dec_alias(self.tok())?;
+                if !self.eat(")") {
+                    return None;
+                }
+                match k {
+                    0 => UseSegmentKind::Slf(a),
+                    1 => UseSegmentKind::Super(a),
+                    _ => UseSegmentKind::Crate(a),
+                }
+            };
+            Some(UseSegment {
+                kind,
+                style_edition: self.style_edition,
+            })
+        }
+        fn tree(&mut self) -> Option<UseTree> {
+            if !self.eat("[") {
+                return None;
+            }
+            let mut path = vec![];
+            while self.s.get(self.pos) == Some(&b'(') {
+                path.push(self.seg()?);
+            }
+            if !self.eat("]") {
+                return None;
+            }
+            Some(crate::imports::verif_local::tree_from_path(path))
+        }
+    }
+
+    pub(crate) fn decode_segment(s: &str, style_edition: StyleEdition) -> Option<UseSegment> {
+        let mut d = Dec {
+            s: s.as_bytes(),
+            pos: 0,
+            style_edition,
+        };
+        let r = d.seg()?;
+        (d.pos == s.len()).then_some(r)
+    }
+
+    /// A `UseTree` with the given path (every segment carrying `style_edition`), dummy span,
+    /// no visibility, attributes or list item.
+    pub(crate) fn decode_tree(s: &str, style_edition: StyleEdition) -> Option<UseTree> {
+        let mut d = Dec {
+            s: s.as_bytes(),
+            pos: 0,
+            style_edition,
+        };
+        let r = d.tree()?;
+        (d.pos == s.len()).then_some(r)
+    }
+
+    pub(crate) fn decode_trees(s: &str, style_edition: StyleEdition) -> Option<Vec<UseTree>> {
+        if s == "_" {
+            return Some(vec![]);
+        }
+        let mut d = Dec {
+            s: s.as_bytes(),
+            pos: 0,
+            style_edition,
+        };
+        let mut v = vec![];
+        while d.pos < s.len() {
+            v.push(d.tree()?);
+        }
+        Some(v)
+    }
+
+    // ---- comparators on values
+
+    /// `sort::version_sort`
+    pub fn version_sort(a: &str, b: &str) -> Ordering {
+        crate::sort::version_sort(a, b)
+    }
+
+    /// The items of `VersionChunkIter` up to its first `None`: `_` when there is none, otherwise
+    /// `,`-joined `u` | `s:<source>` | `n:<value>:<zeros>:<source>`.
+    pub fn version_chunks(ident: &str) -> String {
+        let cs = crate::sort::verif_local::chunks(ident);
+        if cs.is_empty() {
+            return "_".to_owned();
+        }
+        cs.iter()
+            .map(|(k, value, zeros, source)| match k {
+                'u' => "u".to_owned(),
+                's' => format!("s:{}", hex(source)),
+                _ => format!("n:{}:{}:{}", value, zeros, hex(source)),
+            })
+            .collect::<Vec<_>>()
+            .join(",")
+    }
+
+    fn ident_segment(name: &str, style_edition: StyleEdition) -> UseSegment {
+        UseSegment {
+            kind: UseSegmentKind::Ident(name.to_owned(), None),
+            style_edition,
+        }
+    }
+
+    /// `UseSegment::cmp` of `Ident(a, None)` and `Ident(b, None)`: the identifier comparison of
+    /// the style edition (snake < Camel < UPPER then `str::cmp` up to 2021; `version_sort` after
+    /// `trim_start_matches("r#")` from 2024).
+    pub fn ident_cmp(a: &str, b: &str, style_edition: StyleEdition) -> Ordering {
+        ident_segment(a, style_edition).cmp(&ident_segment(b, style_edition))
+    }
+
+    /// `UseSegment::cmp`
+    pub fn use_segment_cmp(a: &str, b: &str, style_edition: StyleEdition) -> Option<Ordering> {
+        Some(decode_segment(a, style_edition)?.cmp(&decode_segment(b, style_edition)?))
+    }
+
+    /// `a.remove_alias().cmp(&b.remove_alias())`
+    pub fn use_segment_cmp_noalias(
+        a: &str,
+        b: &str,
+        style_edition: StyleEdition,
+    ) -> Option<Ordering> {
+        let a = crate::imports::verif_local::remove_alias(&decode_segment(a, style_edition)?);
+        let b = crate::imports::verif_local::remove_alias(&decode_segment(b, style_edition)?);
+        Some(a.cmp(&b))
+    }
+
+    /// `UseSegment::remove_alias`
+    pub fn remove_alias(seg: &str, style_edition: StyleEdition) -> Option<String> {
+        let seg = decode_segment(seg, style_edition)?;
+        Some(encode_segment(
+            &crate::imports::verif_local::remove_alias(&seg),
+        ))
+    }
+
+    /// `UseTree::cmp`
+    pub fn use_tree_cmp(a: &str, b: &str, style_edition: StyleEdition) -> Option<Ordering> {
+        Some(decode_tree(a, style_edition)?.cmp(&decode_tree(b, style_edition)?))
+    }
+
+    /// `Vec<UseTree>::sort()` as `reorder.rs` and `imports.rs` call it.
+    pub fn sort_use_trees(trees: &str, style_edition: StyleEdition) -> Option<String> {
+        let mut v = decode_trees(trees, style_edition)?;
+        v.sort();
+        Some(encode_trees(&v))
+    }
+
+    // ---- on parsed source
+
+    /// Parses `src` the way `format_project` does and hands the crate to `f` together with a
+    /// visitor built the way `format_file` builds it.
+    fn with_parsed<R>(
+        src: &str,
+        config: &Config,
+        f: impl FnOnce(&ast::Crate, &mut FmtVisitor<'_>) -> R,
+    ) -> Result<R, String> {
+        let mut config = config.clone();
+        config.set().verbose(Verbosity::Quiet);
+        config.set().show_parse_errors(false);
+        rustc_span::create_session_if_not_set_then(config.edition().into(), |_| {
+            let mut psess = ParseSess::new(&config).map_err(|e| e.to_string())?;
+            let krate = Parser::parse_crate(Input::Text(src.to_owned()), &psess)
+                .map_err(|_| "parse error".to_owned())?;
+            psess.set_silent_emitter();
+            let snippet_provider: SnippetProvider = psess.snippet_provider(krate.spans.inner_span);
+            let mut visitor =
+                FmtVisitor::from_psess(&psess, &config, &snippet_provider, FormatReport::new());
+            visitor.skip_context.update_with_attrs(&krate.attrs);
+            visitor.last_pos = snippet_provider.start_pos();
+            visitor.skip_empty_lines(snippet_provider.end_pos());
+            Ok(f(&krate, &mut visitor))
+        })
+    }
+
+    fn config_for(style_edition: StyleEdition, edition: Edition) -> Config {
+        let mut config = Config::default();
+        config.set().style_edition(style_edition);
+        config.set().edition(edition);
+        config
+    }
+
+    /// `UseTree::from_ast_with_normalization` of every top-level `use` item of `src`, in source
+    /// order, as `reorder.rs` builds them (nested lists normalised and sorted).
+    pub fn parse_use_trees(
+        src: &str,
+        style_edition: StyleEdition,
+        edition: Edition,
+    ) -> Result<Vec<String>, String> {
+        with_parsed(src, &config_for(style_edition, edition), |krate, visitor| {
+            let context = visitor.get_context();
+            krate
+                .items
+                .iter()
+                .filter_map(|item| UseTree::from_ast_with_normalization(&context, item))
+                .map(|t| encode_tree(&t))
+                .collect()
+        })
+    }
+
+    /// `UseTree::from_ast` of every top-level `use` item of `src` WITHOUT `normalize()`: nested
+    /// lists in source order, `foo::{bar}` and `foo::self` as written.
+    pub fn parse_use_trees_raw(
+        src: &str,
+        style_edition: StyleEdition,
+        edition: Edition,
+    ) -> Result<Vec<String>, String> {
+        with_parsed(src, &config_for(style_edition, edition), |krate, visitor| {
+            let context = visitor.get_context();
+            krate
+                .items
+                .iter()
+                .filter_map(|item| crate::imports::verif_local::from_ast_raw(&context, item))
+                .map(|t| encode_tree(&t))
+                .collect()
+        })
+    }
+
+    fn encode_item(item: &ast::Item) -> String {
+        match item.kind {
+            ast::ItemKind::Mod(_, ident, _) if crate::items::is_mod_decl(item) => {
+                format!("m:{}", hex(ident.as_str()))
+            }
+            ast::ItemKind::ExternCrate(orig, ident) => match orig {
+                Some(name) => format!("e:{}:{}", hex(name.as_str()), hex(ident.as_str())),
+                None => format!("e:{}:~", hex(ident.as_str())),
+            },
+            _ => String::new(),
+        }
+    }
+
+    /// What the reordering reads of a top-level item.
+    #[derive(Debug, Clone, PartialEq, Eq)]
+    pub struct ItemInfo {
+        /// `m:<name>` / `e:<name>:<alias>` as `compare_items` sees the names (`Ident::as_str`),
+        /// empty for any other item
+        pub enc: String,
+        /// `e` extern crate, `m` mod declaration, `u` use, `o` anything else
+        pub kind: char,
+        pub macro_use: bool,
+        pub skip: bool,
+        /// `ReorderableItemKind::from`: `e` | `m` | `u` | `o`
+        pub reorderable_kind: char,
+        /// `lookup_line_range(item.span())`
+        pub lo: usize,
+        pub hi: usize,
+    }
+
+    fn item_info(item: &ast::Item, visitor: &FmtVisitor<'_>) -> ItemInfo {
+        let (kind, macro_use, skip) = crate::reorder::verif_local::item_facts(item);
+        let range = visitor.psess.lookup_line_range(item.span());
+        ItemInfo {
+            enc: encode_item(item),
+            kind,
+            macro_use,
+            skip,
+            reorderable_kind: crate::reorder::verif_local::reorderable_kind(item),
+            lo: range.lo,
+            hi: range.hi,
+        }
+    }
+
+    fn sortable(item: &ast::Item) -> bool {
+        matches!(item.kind, ast::ItemKind::ExternCrate(..))
+            || (matches!(item.kind, ast::ItemKind::Mod(..)) && crate::items::is_mod_decl(item))
+    }
+
+    /// `compare_items` on every ordered pair of the `mod x;` / `extern crate x;` items of `src`
+    /// (other items are ignored): the items and the matrix `m[i][j] = compare_items(i, j)`;
+    /// `None` when the call panicked (`unreachable!()` on two different kinds).
+    pub fn compare_items(
+        src: &str,
+        style_edition: StyleEdition,
+    ) -> Result<(Vec<String>, Vec<Vec<Option<Ordering>>>), String> {
+        with_parsed(
+            src,
+            &config_for(style_edition, Edition::Edition2018),
+            |krate, visitor| {
+                let context = visitor.get_context();
+                let items: Vec<&ast::Item> = krate
+                    .items
+                    .iter()
+                    .map(|p| &**p)
+                    .filter(|i| sortable(i))
+                    .collect();
+                let matrix = items
+                    .iter()
+                    .map(|a| {
+                        items
+                            .iter()
+                            .map(|b| {
+                                catch_unwind(AssertUnwindSafe(|| {
+                                    crate::reorder::verif_local::compare(a, b, &context)
+                                }))
+                                .ok()
+                            })
+                            .collect()
+                    })
+                    .collect();
+                (items.iter().map(|i| encode_item(i)).collect(), matrix)
+            },
+        )
+    }
+
+    /// `sort_by(compare_items)` over the `mod x;` / `extern crate x;` items of `src`, which must
+    /// be of one kind: the items in sorted order.
+    pub fn sort_items(src: &str, style_edition: StyleEdition) -> Result<Vec<String>, String> {
+        with_parsed(
+            src,
+            &config_for(style_edition, Edition::Edition2018),
+            |krate, visitor| {
+                let context = visitor.get_context();
+                let mut items: Vec<&ast::Item> = krate
+                    .items
+                    .iter()
+                    .map(|p| &**p)
+                    .filter(|i| sortable(i))
+                    .collect();
+                items.sort_by(|a, b| crate::reorder::verif_local::compare(a, b, &context));
+                items.iter().map(|i| encode_item(i)).collect()
+            },
+        )
+    }
+
+    /// The top-level items of `src` as the reordering sees them, and what the loop of
+    /// `visit_items_with_reordering` does with them under `config`: (`e`|`m`|`u`, n) for a run
+    /// of n items sorted/regrouped together, (`s`, 1) for an item visited on its own.
+    pub fn split_groups(
+        src: &str,
+        config: &Config,
+    ) -> Result<(Vec<ItemInfo>, Vec<(char, usize)>), String> {
+        with_parsed(src, config, |krate, visitor| {
+            let items: Vec<&ast::Item> = krate.items.iter().map(|p| &**p).collect();
+            let infos = items.iter().map(|i| item_info(i, visitor)).collect();
+            let groups = crate::reorder::verif_local::split_groups(visitor, &items);
+            (infos, groups)
+        })
+    }
+}
